@@ -23,6 +23,15 @@ DETECTION = {
  "S17": ("C13", "thorough", "missed at first; the check can see it (manual history: move one space inside array![..] around an undefined name => stale column) but the default mix rarely produced that edit; after shift_space_in_line (double weight, prefers macro-call lines, string-literal aware), macro-error lines in the errors project and the small macros project, thorough reports it in its first batch (96 histories of <= 30 steps); the 48 short histories of quick still miss it"),
  "S18": ("C13", "quick", "declare_new_module / swap_adjacent_items put a mod line above another one: module order follows intern ids"),
  "S19": ("C12", "quick", "level 1 (2 workers, no prefix) and level 2: the warm-up task raises the shared flag before the reporter runs, lowering diagnostics of the errors project disappear"),
+ "S21": ("C13", "quick", "missed at first (no user-defined macros in any template); caught after the usermacros project (item-level macros with expose!, one expansion with a type error): change_literal inside a macro rule / comment lines above a macro call"),
+ "S22": ("C13", "thorough", "missed at first (pub toggled only at item level, members on separate lines); after toggle_pub learned member-level toggling and usermacros/src/points.cairo got one-line structs read from another module, thorough reports it (E2059 member not visible kept / missing); the first thorough run instead tripped over a bug of MY harness (fresh-reference memo keyed without the project identity) - see DESIGN 12.10"),
+ "S23": ("C13", "quick", "any rename / item insertion after a query"),
+ "S24": ("C03", "quick", "generated bounded_int_constrain instantiation with a negative boundary (and bounded.cairo::constrain_neg) + flipped TestLessThanOrEqual"),
+ "S25": ("C03", "quick", "bounded.cairo::dc_i8_above_only / generated above-only downcasts with a negative lower bound + flipped hint"),
+ "S26": ("C03", "quick", "generated above-only downcast with a shared positive lower bound + flipped hint"),
+ "S27": ("C12", "quick", "thorough only at first (the starknet cairo_level_tests corpus has several circuits); quick since the circuits project (3 circuit descriptors): CASM differs with the H2 hash seed, reproducibly"),
+ "S28": ("C12", "quick", "missed at first (no executables in the corpus); caught after the executables project (same-named #[executable] functions in three modules, executable plugin enabled through a marker in cairo_project.toml)"),
+ "S29": ("C12", "quick", "std HashSet seeded by the OS: not under the H2 seam. First run: the thorough self-test called it a harness error. Now the errors project has a method-not-found error with candidates from two crates; level 1 reports the difference (via the re-executed known-finding replay, whose extra differing entry flow.cairo:E0002 the list does not explain) and replays retry up to 10 fresh processes because such a difference shows in about half of them"),
  "S20": ("C12", "missed", "NOT detected. A process-wide static std Mutex taken with try_lock around a pure computation: contention needs an OS preemption inside a critical section that contains no synchronisation point shuttle controls (level 2 interleaves only at salsa's sync points; level 1 tasks are atomic). Before level-1 runs were isolated in child processes the harness's own worker threads contended on that static and produced a difference that did not replay (reported as a harness error, exit 2) - which is why every run now executes in its own process."),
 }
 for d in sorted(glob.glob(os.path.join(ROOT, "seeded", "S*"))):
